@@ -140,7 +140,7 @@ func init() {
 		Harnesses: []HarnessSpec{
 			{Pkg: "safehtml", Name: "vHarness_C12_three", Quick: []ParamRange{{"n1", 1, 1}, {"n2", 1, 1}, {"m2", 1, 2}, {"n3", 1, 1}, {"m3", 0, 1}}, Thorough: []ParamRange{{"n1", 1, 2}, {"n2", 1, 1}, {"m2", 1, 2}, {"n3", 1, 2}, {"m3", 0, 1}}, Reach: []string{"candidates", "two-candidates"},
 				Filter: func(p map[string]int) bool { return p["n1"]+p["n3"] <= 3 },
-				Desc: "three candidates U1 \" ,\" U2 \" \" D2 \",\" U3 [\" \" D3] with concrete separators and symbolic ASCII contents (an accepted, a dropped and another accepted candidate in one input)"},
+				Desc:   "three candidates U1 \" ,\" U2 \" \" D2 \",\" U3 [\" \" D3] with concrete separators and symbolic ASCII contents (an accepted, a dropped and another accepted candidate in one input)"},
 			{Pkg: "safehtml", Name: "vHarness_C12_sanitized", Quick: []ParamRange{{"ascii", 1, 1}, {"n", 0, 5}}, Thorough: []ParamRange{{"ascii", 1, 1}, {"n", 0, 7}}, Reach: []string{"candidates", "innocuous", "two-candidates"},
 				Desc: "re-parse the result with the WHATWG srcset splitter: every candidate URL is one URLSanitized keeps, descriptors number-like, bytes copied in order from the input, never empty"},
 			{Pkg: "safehtml", Name: "vHarness_C12_sanitized", Quick: []ParamRange{{"ascii", 0, 0}, {"n", 0, 3}}, Thorough: []ParamRange{{"ascii", 0, 0}, {"n", 0, 4}},
@@ -194,7 +194,7 @@ func init() {
 			"quick":    "prefix recogniser: ASCII formats 0..14 bytes, arbitrary bytes 0..11; Format: 5 prefixes (one with a literal \"..\") x ASCII tail 0..6 x two arguments of 0..1 arbitrary bytes; Append: ASCII base 0..8 x string 0..3 bytes; WithParams: ASCII base 0..3, two entries with keys/values 0..1 bytes",
 			"thorough": "prefix: ASCII 0..20, arbitrary 0..14; Format: tail 0..8, arguments 0..2 bytes; Append: base 0..12, string 0..4; WithParams: base 0..5, keys/values 0..2",
 		},
-		Outside: []string{"TrustedResourceURLFormatFromFlag (differs only by flag.Value.String())", "more than two markers / arguments, longer tails", "maps with more than two entries (iteration orders explored: both orders of two entries)", "non-ASCII bytes in the format tail"},
+		Outside:    []string{"TrustedResourceURLFormatFromFlag (differs only by flag.Value.String())", "more than two markers / arguments, longer tails", "maps with more than two entries (iteration orders explored: both orders of two entries)", "non-ASCII bytes in the format tail"},
 		Intrinsics: []string{"(*Regexp).ReplaceAllStringFunc: leftmost-first segmentation by the engine, callback executed by the interpreter", "(*Regexp).MatchString", "sort.Strings (permutation fork)", "strings.Join/IndexByte/IndexRune", "fmt.Fprintf %%%02x"},
 	})
 
@@ -213,7 +213,7 @@ func init() {
 				Filter: func(p map[string]int) bool { return p["field"] == 0 || p["field"] == 5 }, Desc: "display and color with arbitrary bytes"},
 			{Pkg: "safehtml", Name: "vHarness_C15_bgimage", Quick: []ParamRange{{"n1", 0, 2}, {"n2", -1, 1}}, Thorough: []ParamRange{{"n1", 0, 3}, {"n2", -1, 2}}, Reach: []string{"ran"},
 				Filter: func(p map[string]int) bool { return p["n1"]+p["n2"] <= 3 },
-				Desc: "background-image with 1 or 2 items: equals url(\"cssEscape(URLSanitized(u))\") per reference escaper; tokenizer sees one declaration with that many quoted url() functions"},
+				Desc:   "background-image with 1 or 2 items: equals url(\"cssEscape(URLSanitized(u))\") per reference escaper; tokenizer sees one declaration with that many quoted url() functions"},
 			{Pkg: "safehtml", Name: "vHarness_C15_fontfamily", Quick: []ParamRange{{"ascii", 1, 1}, {"n", 0, 3}}, Thorough: []ParamRange{{"ascii", 1, 1}, {"n", 0, 4}}, Reach: []string{"ran"},
 				Desc: "font-family with a symbolic name and a generic name: one declaration, list order kept"},
 			{Pkg: "safehtml", Name: "vHarness_C15_fontfamily", Quick: []ParamRange{{"ascii", 0, 0}, {"n", 1, 2}}, Thorough: []ParamRange{{"ascii", 0, 0}, {"n", 1, 3}},
@@ -258,7 +258,7 @@ func init() {
 			"quick":    "every ASCII selector of length 0..7 and every byte string of length 1..3, style \"color:red;\"",
 			"thorough": "every ASCII selector of length 0..7 (styles \"\" and \"color:red;\") and every byte string of length 1..4",
 		},
-		Outside: []string{"selectors longer than the bounds (the full rule-injecting member of the known-finding family needs 40+ bytes; its 8-byte relatives are inside)", "Style values other than the two constants (they come from checked constructors)"},
+		Outside:    []string{"selectors longer than the bounds (the full rule-injecting member of the known-finding family needs 40+ bytes; its 8-byte relatives are inside)", "Style values other than the two constants (they come from checked constructors)"},
 		Intrinsics: []string{"(*Regexp).ReplaceAllString (leftmost-first segmentation)", "(*Regexp).FindStringSubmatch", "strings.ContainsRune", "fmt.Sprintf %s{%s}", "map iteration in insertion order (matchingBrackets: order-independent use)"},
 	})
 
@@ -268,7 +268,7 @@ func init() {
 		Harnesses: []HarnessSpec{
 			{Pkg: "safehtml", Name: "vHarness_C17_string", Quick: []ParamRange{{"nn", 0, 4}, {"n", 0, 3}}, Thorough: []ParamRange{{"nn", 0, 5}, {"n", 0, 5}}, Reach: []string{"accepted", "rejected"},
 				Filter: func(p map[string]int) bool { return p["nn"] <= 2 || p["n"] <= 2 },
-				Desc: "name and string data symbolic: success => name is an ASCII identifier, result == var name = J;\\nscript, J is a JSON string literal that a scalar JSON-string scanner finds inert (no raw quote / control / < > & / U+2028 / U+2029)"},
+				Desc:   "name and string data symbolic: success => name is an ASCII identifier, result == var name = J;\\nscript, J is a JSON string literal that a scalar JSON-string scanner finds inert (no raw quote / control / < > & / U+2028 / U+2029)"},
 			{Pkg: "safehtml", Name: "vHarness_C17_raw", Quick: []ParamRange{{"n", 0, 5}}, Thorough: []ParamRange{{"n", 0, 6}}, Reach: []string{"accepted", "rejected"},
 				Desc: "data that brings its own JSON text (json.RawMessage with symbolic bytes, as any json.Marshaler may): validated and compacted by the real encoding/json.appendCompact and scanner from stdlib SSA; success => result == var xy = J;\\nscript and J holds no raw < > & U+2028 U+2029"},
 		},
@@ -297,19 +297,21 @@ func init() {
 				Desc: "prefixes without '&' in 6 URL contexts: accepted => no whitespace/control, no partial percent escape, scheme decided and not javascript (per WHATWG scanner), '/?#' or complete scheme present"},
 			{Pkg: "template", Name: "vHarness_C14_prefix", Quick: []ParamRange{{"ctx", 0, 3}, {"amp", 0, 0}, {"np", 1, 4}}, Thorough: []ParamRange{{"ctx", 0, 3}, {"amp", 0, 1}, {"np", 1, 5}},
 				Filter: func(p map[string]int) bool { return (p["ctx"] == 0 || p["ctx"] == 3) && ampOK(p) },
-				Desc: "prefixes with exactly one '&' at a fixed index (character references decoded by the real html.UnescapeString from stdlib SSA)"},
+				Desc:   "prefixes with exactly one '&' at a fixed index (character references decoded by the real html.UnescapeString from stdlib SSA)"},
 			{Pkg: "template", Name: "vHarness_C14_prefix", Quick: []ParamRange{{"ctx", 0, 0}, {"amp", -3, -3}, {"np", 4, 6}}, Thorough: []ParamRange{{"ctx", 0, 3}, {"amp", -2, -2}, {"np", 3, 7}},
 				Filter: func(p map[string]int) bool { return p["ctx"] == 0 || p["ctx"] == 3 },
-				Desc: "prefix is one complete character reference &X;"},
+				Desc:   "prefix is one complete character reference &X;"},
 			{Pkg: "template", Name: "vHarness_C14_prefix", Quick: []ParamRange{{"ctx", 0, 3}, {"amp", -5, -4}, {"k", 1, 3}, {"np", 5, 8}}, Thorough: []ParamRange{{"ctx", 0, 3}, {"amp", -5, -4}, {"k", 1, 4}, {"np", 5, 9}},
-				Filter: func(p map[string]int) bool { return (p["ctx"] == 0 || p["ctx"] == 3) && p["np"]-p["k"] >= 4 && p["np"]-p["k"] <= 6 },
+				Filter: func(p map[string]int) bool {
+					return (p["ctx"] == 0 || p["ctx"] == 3) && p["np"]-p["k"] >= 4 && p["np"]-p["k"] <= 6
+				},
 				Desc: "a decimal character reference with k symbolic bytes before (-4) or after (-5) it"},
 			{Pkg: "template", Name: "vHarness_C14_data", Quick: []ParamRange{{"ctx", 0, 5}, {"amp", -1, -1}, {"np", 1, 4}, {"nd", 0, 2}}, Thorough: []ParamRange{{"ctx", 0, 5}, {"amp", -1, -1}, {"np", 1, 5}, {"nd", 0, 2}},
 				Filter: func(p map[string]int) bool { return p["ctx"] != 1 && p["ctx"] != 2 }, Reach: []string{"tru", "query", "path"},
 				Desc: "accepted prefix without '&' + data: TrustedResourceURL contexts fully percent-encode and reject '..'; query/fragment prefixes fully percent-encode; otherwise reference normalisation + HTML escaping; no '..' segment with data-derived bytes"},
 			{Pkg: "template", Name: "vHarness_C14_data", Quick: []ParamRange{{"ctx", 0, 0}, {"amp", -3, -3}, {"np", 4, 6}, {"nd", 1, 2}}, Thorough: []ParamRange{{"ctx", 0, 0}, {"amp", -2, -2}, {"np", 3, 7}, {"nd", 1, 2}},
 				Filter: func(p map[string]int) bool { return p["np"] < 7 || p["nd"] == 1 },
-				Desc: "prefix is one complete character reference &X; (reaches &num; &#63; &quest;)"},
+				Desc:   "prefix is one complete character reference &X; (reaches &num; &#63; &quest;)"},
 			{Pkg: "template", Name: "vHarness_C14_idempotent", Quick: []ParamRange{{"n", 0, 4}}, Thorough: []ParamRange{{"n", 0, 6}}, Reach: []string{"ran"},
 				Desc: "NormalizeURL(NormalizeURL(d)) == NormalizeURL(d) == reference; QueryEscapeURL == reference encoder"},
 		},
@@ -326,7 +328,7 @@ func init() {
 			"quick":    "6 URL contexts (a/href, img/src, form/action, script/src, link/href with rel=stylesheet and rel=icon); ASCII prefixes: without '&' 1..8 bytes, with one '&' at index 0 up to 4 bytes, decimal references &#d..; of 4..6 bytes; data 0..2 arbitrary bytes after prefixes of 1..4 bytes (and after the decimal references); normaliser/encoder: every byte string of length 0..4",
 			"thorough": "prefixes without '&' up to 10 bytes, with one '&' (index 0 or 1) up to 5, &X; up to 7 (reaches &quest;); data 0..3 bytes after prefixes up to 6; normaliser/encoder up to 6 bytes",
 		},
-		Outside: []string{"prefixes with two or more character references beyond the stated lengths", "non-ASCII bytes in the static prefix", "single-quoted values (same chain)", "attr.ambiguousValue (conditional prefixes)"},
+		Outside:    []string{"prefixes with two or more character references beyond the stated lengths", "non-ASCII bytes in the static prefix", "single-quoted values (same chain)", "attr.ambiguousValue (conditional prefixes)"},
 		Assumes:    []string{"html.UnescapeString is both executed for the implementation and used as the oracle for the decoded prefix (Go's entity table is the WHATWG table)"},
 		Intrinsics: []string{"safehtmlutil.Indirect / indirectToStringerOrError on the dynamic types string and the safe types", "fmt.Sprint, fmt.Fprintf %%%02x", "regexp MatchString / FindStringSubmatch", "strings.ContainsAny, strings.Fields (concrete)"},
 	})
@@ -338,7 +340,7 @@ func init() {
 			{Pkg: "template", Name: "vHarness_C03_matrix", Quick: []ParamRange{{"single", 0, 0}, {"type", 0, 6}, {"ind", 0, 2}, {"ctx", 0, 23}, {"n", 0, 2}},
 				Thorough: []ParamRange{{"single", 0, 1}, {"type", 0, 6}, {"ind", 0, 2}, {"ctx", 0, 23}, {"n", 0, 3}}, Reach: []string{"bypass", "foreign"},
 				Filter: func(p map[string]int) bool { return p["single"] == 0 || p["n"] <= 2 },
-				Desc: "7 safe types x {T, *T, **T} x 24 contexts, contents symbolic: outside the type's own context the chain treats the value exactly like the plain string (same output, same error-or-not); attribute output is HTML-escaped"},
+				Desc:   "7 safe types x {T, *T, **T} x 24 contexts, contents symbolic: outside the type's own context the chain treats the value exactly like the plain string (same output, same error-or-not); attribute output is HTML-escaped"},
 		},
 		Probes: []ProbeSpec{
 			{Pkg: "template", Name: "vProbe_C03_chain", NArgs: 3, Alphabet: "ab<>\"'&/:?#.javscript 1x,_blank-ltr", MaxLen: 8, N: 4000, Extra: []string{"async", "ltr", "lazy", "_self", "javascript:x", "a\" onmouseover=\"x", "</script>", "/a b", "x 2x, y"}},
@@ -349,7 +351,7 @@ func init() {
 			"quick":    "contents: every byte string of length 0..2; 7 types x 3 indirections x 24 context cells, double-quoted attributes",
 			"thorough": "contents 0..4 bytes (single-quoted attributes: 0..2)",
 		},
-		Outside: []string{"fmt.Stringer / error implementations other than the safe types", "pipelines with more than one argument", "user-supplied Funcs", "contents longer than the bound"},
+		Outside:    []string{"fmt.Stringer / error implementations other than the safe types", "pipelines with more than one argument", "user-supplied Funcs", "contents longer than the bound"},
 		Intrinsics: []string{"safehtmlutil.Indirect / indirectToStringerOrError (reflect) modelled on the finite set of dynamic types used", "fmt.Sprint"},
 	})
 
@@ -364,13 +366,15 @@ func init() {
 			{Pkg: "template", Name: "vHarness_C04_joinnames", Quick: []ParamRange{{"attr", 0, 1}, {"n", 1, 1}, {"na", 0, 2}, {"nb", 0, 2}}, Thorough: []ParamRange{{"attr", 0, 1}, {"n", 1, 2}, {"na", 0, 2}, {"nb", 0, 2}}, Reach: []string{"joined"},
 				Desc: "conditional names: join of two contexts with symbolic names and accumulated names lists keeps every possible element / attribute name (and the list invariant)"},
 			{Pkg: "template", Name: "vHarness_C04_linkrel", Quick: []ParamRange{{"n0", 0, 1}, {"n1", 0, 4}, {"n2", 0, 1}, {"n3", 0, 5}}, Thorough: []ParamRange{{"n0", 0, 2}, {"n1", 0, 5}, {"n2", 0, 2}, {"n3", 0, 5}}, Reach: []string{"accepted", "url-allowed"},
-				Filter: func(p map[string]int) bool { return p["n0"]+p["n1"]+p["n2"]+p["n3"] <= 6 && (p["n1"] == 4 || p["n3"] >= 4 || p["n0"]+p["n1"]+p["n3"] <= 3) },
+				Filter: func(p map[string]int) bool {
+					return p["n0"]+p["n1"]+p["n2"]+p["n3"] <= 6 && (p["n1"] == 4 || p["n3"] >= 4 || p["n0"]+p["n1"]+p["n3"] <= 3)
+				},
 				Desc: "link rel chosen by a branch: the real escaper over <link rel=\"T0{{if}}T1{{else}}T2{{end}}T3\" href=\"{{.}}\"> with symbolic texts over [a-z -] and space; href accepts a plain string only if the emitted rel value holds a reviewed URL-compatible token on both branches"},
 			{Pkg: "template", Name: "vHarness_C04_element", Quick: []ParamRange{{"pre", 0, 4}, {"n", 0, 4}}, Thorough: []ParamRange{{"pre", 0, 4}, {"n", 0, 6}}, Reach: []string{"text", "element", "other"},
 				Desc: "which element a content position belongs to: after a symbolic ASCII text (from the data state, optionally behind a concrete tag beginning) the escaper's context.element is the element of the last start tag the HTML tokenizer reference saw (nothing for void elements and after end tags)"},
 			{Pkg: "template", Name: "vHarness_C04_urlchain", Quick: []ParamRange{{"rel", 0, 2}, {"le", 1, 6}, {"la", 3, 10}}, Thorough: []ParamRange{{"rel", 0, 10}, {"le", 1, 8}, {"la", 3, 10}}, Reach: []string{"url-context", "rejected"},
 				Filter: func(p map[string]int) bool { return p["rel"] == 0 || (p["le"] == 4 && p["la"] == 4) },
-				Desc: "URL contexts always run the URL sanitizer and normalizer: for symbolic (element, attribute) names whose reviewed class is URL, TrustedResourceURL-or-URL or TrustedResourceURL the chain chosen by sanitizerForContext holds the class's sanitizer and _normalizeURL"},
+				Desc:   "URL contexts always run the URL sanitizer and normalizer: for symbolic (element, attribute) names whose reviewed class is URL, TrustedResourceURL-or-URL or TrustedResourceURL the chain chosen by sanitizerForContext holds the class's sanitizer and _normalizeURL"},
 			{Pkg: "template", Name: "vHarness_C04_condnames", Quick: []ParamRange{{"swap", 0, 1}, {"le", 1, 6}, {"la", 2, 6}}, Thorough: []ParamRange{{"swap", 0, 1}, {"le", 1, 8}, {"la", 2, 10}}, Reach: []string{"accepted", "rejected"},
 				Desc: "attribute value with a conditional element name (two symbolic alternatives): accepted => both alternatives are listed for the attribute with the same reviewed class"},
 			{Pkg: "template", Name: "vHarness_C04_voidnames", Quick: []ParamRange{{"v", 0, 3}, {"o", 0, 3}, {"swap", 0, 1}, {"n", 1, 2}}, Reach: []string{"closed"},
@@ -415,13 +419,13 @@ func init() {
 			{Pkg: "template", Name: "vHarness_C02_comment", Quick: []ParamRange{{"n", 0, 4}}, Thorough: []ParamRange{{"n", 0, 8}}, Reach: []string{"ran"}, Desc: "data in an HTML comment is dropped"},
 			{Pkg: "template", Name: "vHarness_C02_url1", Quick: []ParamRange{{"ctx", 0, 5}, {"n", 0, 4}}, Thorough: []ParamRange{{"ctx", 0, 5}, {"n", 0, 7}}, Reach: []string{"emitted"},
 				Filter: func(p map[string]int) bool { return p["n"] <= 5 || p["ctx"] == 0 },
-				Desc: "one action at the start of six URL attributes (ASCII data): the decoded value has no javascript scheme; emitted text is HTML-escaped"},
+				Desc:   "one action at the start of six URL attributes (ASCII data): the decoded value has no javascript scheme; emitted text is HTML-escaped"},
 			{Pkg: "template", Name: "vHarness_C02_url2", Quick: []ParamRange{{"schemechars", 1, 1}, {"ctx", 0, 0}, {"n1", 0, 7}, {"n2", 0, 8}}, Thorough: []ParamRange{{"schemechars", 1, 1}, {"ctx", 0, 5}, {"n1", 0, 11}, {"n2", 0, 11}},
 				Filter: func(p map[string]int) bool { return p["n1"]+p["n2"] <= 13 && (p["ctx"] == 0 || p["n1"]+p["n2"] == 11) }, Reach: []string{"emitted"},
 				Desc: "two adjacent actions in one URL attribute, pieces over scheme characters and ':': the concatenation of the individually sanitized pieces has no javascript scheme"},
 			{Pkg: "template", Name: "vHarness_C02_url2", Quick: []ParamRange{{"schemechars", 0, 0}, {"ctx", 0, 0}, {"n1", 0, 3}, {"n2", 0, 3}}, Thorough: []ParamRange{{"schemechars", 0, 0}, {"ctx", 0, 0}, {"n1", 0, 4}, {"n2", 0, 7}},
 				Filter: func(p map[string]int) bool { return p["n1"]+p["n2"] <= 6 || (p["n1"] == 4 && p["n2"] == 7) },
-				Desc: "two adjacent actions, arbitrary ASCII pieces"},
+				Desc:   "two adjacent actions, arbitrary ASCII pieces"},
 			{Pkg: "template", Name: "vHarness_C02_joinprefix", Quick: []ParamRange{{"ctx", 0, 4}, {"flagb", 0, 1}, {"flaga", 0, 1}, {"na", 0, 2}, {"nb", 0, 2}}, Thorough: []ParamRange{{"ctx", 0, 4}, {"flagb", 0, 1}, {"flaga", 0, 1}, {"na", 0, 3}, {"nb", 0, 3}}, Reach: []string{"ambiguous"},
 				Desc: "branches with different static attribute prefixes (symbolic): join records the ambiguity and an action after it is refused in URL and enumerated attributes, whichever prefix was kept"},
 			{Pkg: "safehtml", Name: "vHarness_C12_sanitized", Quick: []ParamRange{{"ascii", 1, 1}, {"n", 0, 4}}, Thorough: []ParamRange{{"ascii", 1, 1}, {"n", 0, 6}},
@@ -431,7 +435,9 @@ func init() {
 			{Pkg: "safehtml", Name: "vHarness_C11_sound", Quick: []ParamRange{{"ascii", 1, 1}, {"n", 8, 13}}, Thorough: []ParamRange{{"ascii", 1, 1}, {"n", 0, 16}},
 				Desc: "the URL sanitizer behind _sanitizeURL: an accepted ASCII string (lengths around \"javascript:\") has no javascript scheme under the WHATWG scanner"},
 			{Pkg: "template", Name: "vHarness_C14_prefix", Quick: []ParamRange{{"ctx", 0, 0}, {"amp", -5, -4}, {"k", 1, 3}, {"np", 5, 8}}, Thorough: []ParamRange{{"ctx", 0, 3}, {"amp", -5, -4}, {"k", 1, 3}, {"np", 5, 8}},
-				Filter: func(p map[string]int) bool { return (p["ctx"] == 0 || p["ctx"] == 3) && p["np"]-p["k"] >= 4 && p["np"]-p["k"] <= 6 },
+				Filter: func(p map[string]int) bool {
+					return (p["ctx"] == 0 || p["ctx"] == 3) && p["np"]-p["k"] >= 4 && p["np"]-p["k"] <= 6
+				},
 				Desc: "static URL prefixes with a decimal character reference next to symbolic bytes (validateURLPrefix sees what the browser decodes)"},
 			{Pkg: "template", Name: "vHarness_C02_mangle", Quick: []ParamRange{{"relvar", 0, 1}, {"ctx", 0, 5}, {"n1", 0, 2}, {"n2", 0, 2}}, Thorough: []ParamRange{{"relvar", 0, 1}, {"ctx", 0, 5}, {"n1", 0, 3}, {"n2", 0, 3}},
 				Filter: func(p map[string]int) bool { return p["relvar"] == 0 || p["ctx"] == 4 }, Reach: []string{"same-name"},
@@ -457,44 +463,44 @@ func init() {
 		ID:    "C01",
 		Title: "Template markup structure is never altered by untrusted data (unit lemmas)",
 		Harnesses: []HarnessSpec{
-			{Pkg: "template", Name: "vHarness_C01_text", Quick: []ParamRange{{"pre", 0, 16}, {"n", 0, 4}}, Thorough: []ParamRange{{"pre", 0, 16}, {"n", 0, 6}}, Reach: []string{"accepted", "rejected", "stable"},
+			{Pkg: "template", Name: "vHarness_C01_text", Quick: []ParamRange{{"pre", 0, 16}, {"n", 0, 4}}, Thorough: []ParamRange{{"pre", 0, 16}, {"n", 0, 4}}, Reach: []string{"accepted", "rejected", "stable"},
 				Filter: func(p map[string]int) bool { return p["n"] <= 5 || p["pre"] == 0 },
-				Desc: "L1+L2: one ASCII text node from 17 (context, tokenizer state) pre-states through the real escapeText: the rewritten text has the author's tags/attributes and no comment; the resulting context agrees with the tokenizer state of the output"},
-			{Pkg: "template", Name: "vHarness_C01_text", Quick: []ParamRange{{"pre", 0, 0}, {"n", 5, 5}}, Thorough: []ParamRange{{"pre", 17, 18}, {"n", 0, 8}},
+				Desc:   "L1+L2: one ASCII text node from 17 (context, tokenizer state) pre-states through the real escapeText: the rewritten text has the author's tags/attributes and no comment; the resulting context agrees with the tokenizer state of the output"},
+			{Pkg: "template", Name: "vHarness_C01_text", Quick: []ParamRange{{"pre", 0, 0}, {"n", 5, 5}}, Thorough: []ParamRange{{"pre", 0, 0}, {"n", 5, 5}},
 				Desc: "longer text from the data state (reaches <xmp>); script-data escaped pre-states"},
-			{Pkg: "template", Name: "vHarness_C01_text", Quick: []ParamRange{{"pre", 17, 17}, {"n", 9, 9}}, Thorough: []ParamRange{{"pre", 4, 4}, {"n", 6, 7}},
+			{Pkg: "template", Name: "vHarness_C01_text", Quick: []ParamRange{{"pre", 17, 17}, {"n", 9, 9}}, Thorough: []ParamRange{{"pre", 17, 17}, {"n", 9, 9}},
 				Desc: "script double-escaped pre-state with a 9-byte text (reaches </script>)"},
-			{Pkg: "template", Name: "vHarness_C01_text", Quick: []ParamRange{{"pre", 5, 5}, {"n", 8, 8}}, Thorough: []ParamRange{{"pre", 5, 5}, {"n", 7, 9}},
+			{Pkg: "template", Name: "vHarness_C01_text", Quick: []ParamRange{{"pre", 5, 5}, {"n", 8, 8}}, Thorough: []ParamRange{{"pre", 5, 5}, {"n", 8, 8}},
 				Desc: "style element body with an 8-byte text (reaches </style followed by any byte: the end-tag separator set of indexTagEnd)"},
-			{Pkg: "template", Name: "vHarness_C01_action", Quick: []ParamRange{{"pre", 0, 18}, {"n", 0, 3}}, Thorough: []ParamRange{{"pre", 0, 18}, {"n", 0, 4}}, Reach: []string{"accepted", "rejected"},
+			{Pkg: "template", Name: "vHarness_C01_action", Quick: []ParamRange{{"pre", 0, 18}, {"n", 0, 3}}, Thorough: []ParamRange{{"pre", 0, 18}, {"n", 0, 3}}, Reach: []string{"accepted", "rejected"},
 				Desc: "L3: where sanitizerForContext(nudge(c)) accepts an action the tokenizer is in a text or quoted-value state and the sanitized data leaves its state and counters unchanged"},
 			{Pkg: "template", Name: "vHarness_C01_join", Quick: []ParamRange{{"a", 0, 16}, {"b", 0, 16}}, Reach: []string{"joined", "rejected"},
 				Desc: "L4: join(a, b) not an error => the joined context agrees with the tokenizer state of both branches"},
 			{Pkg: "template", Name: "vHarness_C01_range", Quick: []ParamRange{{"prefix", 0, 11}, {"n0", 0, 1}, {"n1", 0, 2}, {"n2", 0, 2}, {"n3", 1, 1}, {"nd", 1, 1}},
-				Thorough: []ParamRange{{"prefix", 0, 11}, {"n0", 0, 1}, {"n1", 0, 2}, {"n2", 0, 2}, {"n3", 0, 1}, {"nd", 1, 1}}, Reach: []string{"accepted", "rejected"}, Eager: true,
+				Thorough: []ParamRange{{"prefix", 0, 11}, {"n0", 0, 1}, {"n1", 0, 2}, {"n2", 0, 2}, {"n3", 1, 1}, {"nd", 1, 1}}, Reach: []string{"accepted", "rejected"}, Eager: true,
 				Desc: "composition over a loop: the real escapeBranch (with its re-entry pass) over P T0 {{range .}}T1 {{.}} T2{{end}} T3 with symbolic ASCII texts; the assembled output for 0, 1 and 2 iterations has the same token stream for an inert and a symbolic data value"},
 			{Pkg: "template", Name: "vHarness_C01_loopexit", Quick: []ParamRange{{"kind", 0, 1}, {"prefix", 0, 5}, {"n0", 0, 0}, {"n1", 0, 3}, {"n2", 0, 1}, {"n3", 0, 1}, {"n4", 0, 0}, {"nd", 1, 1}},
-				Thorough: []ParamRange{{"kind", 0, 1}, {"prefix", 0, 11}, {"n0", 0, 1}, {"n1", 0, 3}, {"n2", 0, 2}, {"n3", 0, 1}, {"n4", 0, 1}, {"nd", 1, 1}}, Reach: []string{"rejected"}, Eager: true,
+				Thorough: []ParamRange{{"kind", 0, 1}, {"prefix", 0, 5}, {"n0", 0, 0}, {"n1", 0, 3}, {"n2", 0, 1}, {"n3", 0, 1}, {"n4", 0, 0}, {"nd", 1, 1}}, Reach: []string{"rejected"}, Eager: true,
 				Desc: "loop exits: P T0 {{range .}}T1{{if .}}{{break|continue}}{{end}}T2{{end}} T3 {{.}} T4 - the escaper refuses the node (panic, nothing executed) or the output after an early exit has the same token stream for an inert and a symbolic data value"},
 			{Pkg: "template", Name: "vHarness_C01_call", Quick: []ParamRange{{"prefix", 0, 6}, {"rec", 0, 1}, {"mid", 0, 1}, {"twice", 0, 1}, {"n0", 0, 0}, {"n1", 0, 1}, {"n2", 0, 1}, {"n5", 0, 1}, {"n6", 0, 0}, {"n3", 0, 0}, {"n4", 0, 2}, {"nd", 1, 1}},
-				Thorough: []ParamRange{{"prefix", 0, 6}, {"rec", 0, 1}, {"mid", 0, 1}, {"twice", 0, 1}, {"n0", 0, 0}, {"n1", 0, 1}, {"n2", 0, 2}, {"n5", 0, 1}, {"n6", 0, 0}, {"n3", 0, 1}, {"n4", 0, 2}, {"nd", 1, 1}}, Reach: []string{"accepted", "rejected"}, Eager: true,
+				Thorough: []ParamRange{{"prefix", 0, 6}, {"rec", 0, 1}, {"mid", 0, 1}, {"twice", 0, 1}, {"n0", 0, 0}, {"n1", 0, 1}, {"n2", 0, 1}, {"n5", 0, 1}, {"n6", 0, 0}, {"n3", 0, 0}, {"n4", 0, 2}, {"nd", 1, 1}}, Reach: []string{"accepted", "rejected"}, Eager: true,
 				Filter: func(p map[string]int) bool {
 					return (p["mid"] == 0 || (p["prefix"] >= 2 && p["prefix"] <= 4)) && (p["twice"] == 0 || p["mid"] == 0) && p["n0"]+p["n1"]+p["n2"]+p["n5"]+p["n3"]+p["n4"] <= 4
 				},
 				Desc: "composition over template calls: the real escapeTree / computeOutCtx / escapeTemplateBody (derived templates per start context, fixed-point rule for recursion) over main = P T0 {{template \"y\"}} T3 {{.}} T4 and y = T1 [{{if}}{{template \"y\"}}{{end}}] T2 M T5; the output assembled from the trees the escaper produced, for recursion depths 0..2, has the same token stream for an inert and a symbolic data value"},
 			{Pkg: "template", Name: "vHarness_C01_call", Quick: []ParamRange{{"prefix", 0, 0}, {"rec", 0, 0}, {"mid", 1, 1}, {"twice", 1, 1}, {"n0", 0, 0}, {"n1", 0, 0}, {"n2", 2, 2}, {"n5", 1, 1}, {"n6", 0, 0}, {"n3", 2, 2}, {"n4", 2, 2}, {"nd", 1, 1}},
-				Thorough: []ParamRange{{"prefix", 0, 1}, {"rec", 0, 1}, {"mid", 1, 1}, {"twice", 1, 1}, {"n0", 0, 0}, {"n1", 0, 1}, {"n2", 2, 2}, {"n5", 1, 1}, {"n6", 0, 0}, {"n3", 2, 2}, {"n4", 2, 2}, {"nd", 1, 1}}, Eager: true,
+				Thorough: []ParamRange{{"prefix", 0, 0}, {"rec", 0, 0}, {"mid", 1, 1}, {"twice", 1, 1}, {"n0", 0, 0}, {"n1", 0, 0}, {"n2", 2, 2}, {"n5", 1, 1}, {"n6", 0, 0}, {"n3", 2, 2}, {"n4", 2, 2}, {"nd", 1, 1}}, Eager: true,
 				Desc: "a helper that opens a tag and an attribute (T2 \" title=\" T5), called twice from the same start context: the second call takes escapeTree's \"already escaped\" path"},
 			{Pkg: "template", Name: "vHarness_C01_call", Quick: []ParamRange{{"prefix", 0, 4}, {"rec", 2, 2}, {"mid", 0, 2}, {"twice", 0, 0}, {"n0", 0, 0}, {"n1", 0, 0}, {"n2", 0, 2}, {"n5", 0, 0}, {"n6", 0, 1}, {"n3", 0, 1}, {"n4", 0, 1}, {"nd", 1, 1}},
-				Thorough: []ParamRange{{"prefix", 0, 6}, {"rec", 2, 2}, {"mid", 0, 2}, {"twice", 0, 0}, {"n0", 0, 0}, {"n1", 0, 0}, {"n2", 0, 2}, {"n5", 0, 1}, {"n6", 0, 1}, {"n3", 0, 1}, {"n4", 0, 1}, {"nd", 1, 1}}, Eager: true,
+				Thorough: []ParamRange{{"prefix", 0, 4}, {"rec", 2, 2}, {"mid", 0, 2}, {"twice", 0, 0}, {"n0", 0, 0}, {"n1", 0, 0}, {"n2", 0, 2}, {"n5", 0, 0}, {"n6", 0, 1}, {"n3", 0, 1}, {"n4", 0, 1}, {"nd", 1, 1}}, Eager: true,
 				Filter: func(p map[string]int) bool {
 					return p["n1"]+p["n2"]+p["n5"]+p["n6"]+p["n3"]+p["n4"] <= 4 && (p["mid"] != 1 || (p["prefix"] >= 2 && p["prefix"] <= 4)) && (p["mid"] != 2 || p["prefix"] <= 1)
 				},
 				Desc: "mutual recursion: y = T1 {{if}}{{template z}}{{end}} T2 M T5 and z = {{template y}} T6 (the fixed-point rule has to see the indirect self-call)"},
 			{Pkg: "template", Name: "vHarness_C01_shape", Quick: []ParamRange{{"prefix", 0, 12}, {"n0", 0, 1}, {"n1", 0, 1}, {"n2", 0, 1}, {"n3", 0, 1}, {"n4", 1, 1}, {"nd", 1, 1}},
-				Thorough: []ParamRange{{"prefix", 0, 11}, {"n0", 0, 1}, {"n1", 0, 2}, {"n2", 0, 1}, {"n3", 0, 2}, {"n4", 0, 2}, {"nd", 1, 1}}, Reach: []string{"accepted", "rejected"}, Eager: true,
+				Thorough: []ParamRange{{"prefix", 0, 12}, {"n0", 0, 1}, {"n1", 0, 1}, {"n2", 0, 1}, {"n3", 0, 1}, {"n4", 1, 1}, {"nd", 1, 1}}, Reach: []string{"accepted", "rejected"}, Eager: true,
 				Filter: func(p map[string]int) bool { return p["n0"]+p["n1"]+p["n2"]+p["n3"]+p["n4"] <= 4 },
-				Desc: "composition: the real escapeList / escapeBranch / join / escapeAction / escapeText over a hand-built tree P T0 {{if}}T1{{else}}T2{{end}} T3 {{.}} T4 with symbolic ASCII texts; the assembled output of both branches has the same token stream for an inert and a symbolic data value"},
+				Desc:   "composition: the real escapeList / escapeBranch / join / escapeAction / escapeText over a hand-built tree P T0 {{if}}T1{{else}}T2{{end}} T3 {{.}} T4 with symbolic ASCII texts; the assembled output of both branches has the same token stream for an inert and a symbolic data value"},
 		},
 		Probes: []ProbeSpec{
 			{Pkg: "template", Name: "vProbe_C01_escape", NArgs: 2, Alphabet: "<>/!-=\"' abdivscrptxm\t\n\f&;", MaxLen: 12, N: 3000, TestDir: "template",
@@ -506,7 +512,7 @@ func init() {
 			"template.sanitizerForContext and the run-time sanitizers", "template.editTextNode", "safehtml.HTMLEscaped"},
 		Bounds: map[string]string{
 			"quick":    "text nodes: every ASCII string of length 0..4 from each of 17 pre-states (0..5 from the data state; 9 bytes from the script double-escaped state); action data: every byte string of length 0..3 in 19 pre-states; join: all 289 pairs of pre-states",
-			"thorough": "text nodes 0..5 from every pre-state, 0..6 from the data state, 6..7 in a script body, 0..8 from the script-escaped states, 7..9 in a style body; data 0..4; composition harnesses with one more byte per text than quick (sum <= 4), 12-13 prefixes, data 1 byte",
+			"thorough": "identical to quick: deeper bounds for the text lemmas (n 6..9) and the composition harnesses (one more byte per text, 2 data bytes) were tried and did not finish within the 45-minute calibration cap, so they are not registered",
 		},
 		Outside: []string{"text/template's lexer, parser and executor; the composition of the lemmas over if/range/with/template (escapeBranch, escapeTree): argued in DESIGN.md, not mechanised",
 			"text nodes that end in the middle of a token (transient tokenizer states at node boundaries are skipped by L2)", "non-ASCII bytes in static text", "foreign (SVG/MathML) content, Delims, CSP-compatible mode",
@@ -520,7 +526,7 @@ func init() {
 		Harnesses: []HarnessSpec{
 			{Pkg: "template", Name: "vHarness_C05_sticky", Quick: []ParamRange{{"prefix", 0, 9}, {"n0", 0, 1}, {"n1", 0, 2}, {"n2", 0, 2}}, Thorough: []ParamRange{{"prefix", 0, 11}, {"n0", 0, 1}, {"n1", 0, 2}, {"n2", 0, 2}}, Reach: []string{"analysis-failed", "executed", "tohtml-error", "uncontextualizable", "caller-executed"},
 				Filter: func(p map[string]int) bool { return p["n1"] == 0 || p["n2"] == 0 || p["n1"]+p["n2"] <= 2 },
-				Desc: "two calls chosen symbolically among Execute, ExecuteTemplate, ExecuteToHTML, ExecuteTemplateToHTML on main = P T0 {{.M}} T1 (symbolic ASCII texts), ExecuteTemplate on a caller of main and on an unrelated template, with a data value that decides whether execution fails at run time: once main's analysis has failed every later call on it or on its caller returns an error and writes nothing, its parse tree is gone, and the ToHTML variants return the zero HTML whenever they return an error"},
+				Desc:   "two calls chosen symbolically among Execute, ExecuteTemplate, ExecuteToHTML, ExecuteTemplateToHTML on main = P T0 {{.M}} T1 (symbolic ASCII texts), ExecuteTemplate on a caller of main and on an unrelated template, with a data value that decides whether execution fails at run time: once main's analysis has failed every later call on it or on its caller returns an error and writes nothing, its parse tree is gone, and the ToHTML variants return the zero HTML whenever they return an error"},
 			{Pkg: "template", Name: "vHarness_C08_history", Quick: []ParamRange{{"prefix", 0, 9}, {"n0", 0, 1}, {"n1", 0, 1}, {"n2", 0, 2}, {"n3", 0, 0}}, Thorough: []ParamRange{{"prefix", 0, 11}, {"n0", 0, 1}, {"n1", 0, 2}, {"n2", 0, 2}, {"n3", 0, 0}}, Reach: []string{"analysed", "failed"},
 				Desc: "the analysis half below the entry points: lookupAndEscapeTemplate / escape() histories (a failed analysis stays failed, drops the parse tree, and a caller of the failed template is not accepted)"},
 		},
@@ -560,7 +566,7 @@ func init() {
 		Harnesses: []HarnessSpec{
 			{Pkg: "template", Name: "vHarness_C08_history", Quick: []ParamRange{{"prefix", 0, 9}, {"n0", 0, 1}, {"n1", 0, 2}, {"n2", 0, 2}, {"n3", 0, 2}}, Thorough: []ParamRange{{"prefix", 0, 11}, {"n0", 0, 1}, {"n1", 0, 2}, {"n2", 0, 2}, {"n3", 0, 2}}, Reach: []string{"analysed", "failed", "caller-analysed", "derived-analysed"},
 				Filter: func(p map[string]int) bool { return p["n2"] == 0 || p["n3"] == 0 },
-				Desc: "bounded call histories: two calls chosen symbolically among lookupAndEscapeTemplate(main | incomplete | undefined), escape() and Lookup over a hand-built set with symbolic ASCII texts: every call returns, the name-space mutex is free afterwards (a second Lock on a held mutex is reported as a deadlock), a failed analysis stays failed and drops the parse tree"},
+				Desc:   "bounded call histories: two calls chosen symbolically among lookupAndEscapeTemplate(main | incomplete | undefined), escape() and Lookup over a hand-built set with symbolic ASCII texts: every call returns, the name-space mutex is free afterwards (a second Lock on a held mutex is reported as a deadlock), a failed analysis stays failed and drops the parse tree"},
 			{Pkg: "template", Name: "vHarness_C08_text", Quick: []ParamRange{{"elem", 0, 8}, {"attr", 0, 1}, {"n", 0, 3}}, Thorough: []ParamRange{{"elem", 0, 8}, {"attr", 0, 3}, {"n", 0, 4}}, Reach: []string{"ran"},
 				Filter: func(p map[string]int) bool {
 					e := p["elem"]
@@ -572,7 +578,7 @@ func init() {
 			{Pkg: "template", Name: "vHarness_C08_sanitizers", Quick: []ParamRange{{"san", 0, 19}, {"n", 0, 2}}, Thorough: []ParamRange{{"san", 0, 19}, {"n", 0, 3}}, Reach: []string{"ran"},
 				Desc: "each of the 20 run-time functions on 16 argument kinds (nil, string, the seven safe types, pointers, pointers to pointers, typed nil pointers): no panic"},
 		},
-		Probes: []ProbeSpec{},
+		Probes:    []ProbeSpec{},
 		Functions: []string{"everything encoded for C01 (escapeText, contextAfterText, the transition functions, indexTagEnd, eat*, isJsTemplateBalanced and helpers)", "the twenty functions of the funcs map", "safehtmlutil.Stringify / Indirect models"},
 		Bounds: map[string]string{
 			"quick":    "text: every ASCII string of length 0..3 (0..2 for five of nine element names) from every (state, delimiter) pair allowed by the data invariant x 9 element names x 2 attribute names; sanitizers: contents 0..2 bytes",
